@@ -1,6 +1,7 @@
 import GB.Base.Proto
 import GB.C15.Spec
 import GB.C15.Agg
+import GB.C15.Once
 /-
   C15 driver: judges one case line of the `c15` area.
 
@@ -578,8 +579,41 @@ def handleRR (mode vs closeAt : String) (out : List String) : String :=
         s!"OK{nt} b=rr-{mode}{closeAt}" ++ (if v.skipped then " b=rr-updateOnClosedWatcher" else "") ++
           (if v.g.past.length > (v.g.applied 1).length ∧ (v.g.applied 0).length > (v.g.applied 1).length then " b=rr-membersDiffer" else "")
 
+/-! ### once: the real `sync.OnceFunc` against runs of the Once LTS -/
+
+/-- schedule A: the callers run one after the other; schedule B: everybody passes the fast-path load first,
+    then they go through the mutex one by one. -/
+def onceSchedule (n : Nat) (allEnterFirst : Bool) : List Once.L :=
+  let slow (i : Nat) : List Once.L := [.lock i, .check i, .fret i, .store i, .unlock i]
+  if allEnterFirst then
+    (List.range n).map (fun i => Once.L.enter i) ++ (List.range n).flatMap (fun i => match i with
+      | 0 => slow 0
+      | i => [.lock i, .check i, .unlock i])
+  else
+    (List.range n).flatMap (fun i => match i with
+      | 0 => Once.L.enter 0 :: slow 0
+      | i => [.enter i])
+
+def onceModel (n : Nat) : Option String :=
+  match GB.LTS.run Once.step Once.S.init (onceSchedule n false), GB.LTS.run Once.step Once.S.init (onceSchedule n true) with
+  | some a, some b =>
+    let early (s : Once.S) : Nat := ((List.range n).filter (fun i => s.pc i == .returned && s.completed == 0)).length
+    if a.execs = b.execs ∧ early a = early b then some s!"execs={a.execs} early={early a}" else none
+  | _, _ => none
+
+def handleOnce (n : String) (out : List String) : String :=
+  match n.toNat? with
+  | none => "BAD once"
+  | some n =>
+    match onceModel n with
+    | none => "BAD once-model-schedules-disagree"
+    | some m =>
+      if " ".intercalate out = m then s!"OK{if n ≥ 2 then " nt" else ""} b=once{min n 3}"
+      else s!"DIFF model={m}"
+
 def handle : Handler
   | "rr" :: [mode, vs, closeAt], out => handleRR mode vs closeAt out
+  | ["once", n], out => handleOnce n out
   | "opts" :: rest, out => handleOpts rest out
   | ["agg", n, evs], [out] => handleAgg n evs out
   | ["close2", "seq"], out =>
